@@ -216,8 +216,9 @@ def look_through(a, prefix=""):
             # locals that only name a value computed without reading memory (`let next = ip.add(2)`, `let t = temps_ptr(cxt)`) or a place
             # (`let m = &mut (*cxt).context.memory`) are replaced by what they name
             try:
+                nc_ = _pm.NORM_COUNT[0]
                 nst = _pm.normalize_stmts(nb["stmts"], light=True)
-                if len(json.dumps(nst)) != len(json.dumps(nb["stmts"])):
+                if _pm.NORM_COUNT[0] != nc_:
                     nb = {**nb, "stmts": nst}
                     _pm.SINK_COUNT[0] += 1
             except (KeyError, TypeError, AttributeError):
